@@ -554,6 +554,11 @@ func (x *Exec) visitInstr(fr *frame, instr ssa.Instruction) continuation {
 		if p == nil {
 			x.runtimePanic(fr, "invalid memory address or nil pointer dereference")
 		}
+		if x.trackRelease {
+			if where, rel := x.released[p]; rel && isZerologPkg(pkgPathOf(fr.fn)) && !strings.Contains(x.eng.prog.Fset.Position(fr.fn.Pos()).Filename, "zz_verif") {
+				x.violate("use-after-put", "field of a pooled object accessed after it was returned to the pool at "+where, x.posOf(instr))
+			}
+		}
 		fr.set(instr, &(*p).(Struct)[instr.Field])
 
 	case *ssa.Field:
@@ -1047,4 +1052,14 @@ func storeInto(p *Value, v Value) {
 		}
 	}
 	*p = copyVal(v)
+}
+
+func pkgPathOf(fn *ssa.Function) string {
+	if fn.Pkg != nil {
+		return fn.Pkg.Pkg.Path()
+	}
+	if fn.Parent() != nil {
+		return pkgPathOf(fn.Parent())
+	}
+	return ""
 }
